@@ -43,6 +43,10 @@ CLOSED TABLE  (Python construct -> model term; anything else is REJECTED).  `s` 
                                                                       (TRUSTED: `__do_step` is `ca.rootfinder` of the
                                                                       `__res_vals` translated below); fork: `none`
                                                                       (success = False, v = junk) / `some next`
+    if np.isnan(np.array(v, dtype=float)).any(): ...; raise           (v the root finder's answer, after the success test)
+                                                                      nothing on the `some next` path (TRUSTED: an answer with
+                                                                      nan entries is the oracle's `none` outcome, which raises
+                                                                      too; a rational root has no nan); rejected elsewhere
     raise ...                                                         `.raised s`;   end of function / return: `.returned s`
     return e (get_var)                                                the value
     logger.*(...), docstrings, asserts, and `if`/`try` blocks that contain no raise/return, no
@@ -81,6 +85,7 @@ CLOSED TABLE  (Python construct -> model term; anything else is REJECTED).  `s` 
     ca.Function("res_vals", [X, dt, constants], [dae_residual]), nlp "g": equality_constraints   the final value is what is used
 """
 import ast
+import re
 import os
 from fractions import Fraction
 
@@ -423,6 +428,18 @@ class Update(Exec):
                 raise TranslationError("root finder statistics read before the call")
             cx.env[st.targets[0].id] = ("stats", cx.extra["oracle"])
             return self.run(rest, cx, ind)
+        # nan guard on the root finder's answer (commit ed37634): `if np.isnan(np.array(v, dtype=float)).any(): ... raise`
+        if isinstance(st, ast.If) and not st.orelse and re.fullmatch(
+                r"np\.isnan\((np\.array\((\w+), dtype=float\)|(\w+))\)\.any\(\)", _u(st.test)):
+            m = re.fullmatch(r"np\.isnan\((np\.array\((\w+), dtype=float\)|(\w+))\)\.any\(\)", _u(st.test))
+            nv = cx.env.get(m.group(2) or m.group(3))
+            if isinstance(nv, tuple) and nv[0] == "next" and any(isinstance(q, ast.Raise) for q in st.body) \
+                    and isinstance(st.body[-1], ast.Raise):
+                if nv[1] != "next":
+                    raise TranslationError("nan guard reached on the path where the root finder has failed")
+                # TRUSTED: an answer with nan entries is the oracle's `none` outcome (no root returned), where the
+                # function raises as well; on the `some next` path the answer is a rational root: the test is false
+                return self.run(rest, cx, ind)
         # write-back
         if isinstance(st, ast.Assign) and len(st.targets) == 1 \
                 and _u(st.targets[0]) == "self.__state_vector[:self.__n_states]":
